@@ -4,6 +4,7 @@
 #include "Bitmap/BitmapFile.h"
 #include "Sprite/TilesetLoader.h"
 #include "Stream/MemoryReader.h"
+#include "Stream/FileReader.h"
 #include "Stream/DynamicMemoryWriter.h"
 
 using namespace verif;
@@ -53,6 +54,7 @@ void picture_case(const Pic& p, Stats& st) {
 		if (cb != ref) { size_t at = 0; while (at < cb.size() && at < ref.size() && cb[at] == ref[at]) ++at; V_CHECK(false, "custom tileset bytes from a " << (bu ? "bottom-up" : "top-down") << " source differ from the independent description at offset " << at << " (lengths " << cb.size() << " vs " << ref.size() << ")"); }
 		BitmapFile fromCustom = load(cb);
 		same_picture(fromCustom, p, "loaded from custom format");
+		V_CHECK(custom_bytes(fromCustom) == cb, "saving the picture that was loaded from the custom format does not reproduce the file byte for byte");
 		V_CHECK(p.h == 0 || fromCustom.imageHeader.height < 0, "picture loaded from the custom format is not top-down (height " << fromCustom.imageHeader.height << ")");
 		BitmapFile fromBmp = load(bmp_bytes(src));
 		same_picture(fromBmp, p, "loaded from standard bitmap");
@@ -68,6 +70,7 @@ void picture_case(const Pic& p, Stats& st) {
 			Out o = guarded([&] { fromRef = load(refgfx::encode_bmp(L)); }, &what);
 			V_CHECK(o == Out::Ok, "tileset stored as a standard bitmap (" << (bu ? "bottom-up" : "top-down") << ", height " << p.h << ", stated image size " << L.imageSize << ", used colours " << L.usedColors << ") refused: " << what);
 			same_picture(fromRef, p, "loaded from an independently encoded standard bitmap");
+			V_CHECK(custom_bytes(fromRef) == ref, "custom tileset bytes depend on header fields of the source bitmap (image size / resolution / colour counts) and not on the picture alone");
 			V_CHECK(fromRef.imageHeader.height == L.height, "standard bitmap orientation not kept as stored");
 		}
 	}
@@ -122,6 +125,14 @@ void signature_case(const std::vector<uint8_t>& pre, const std::vector<uint8_t>&
 		V_CHECK(is == want, "PeekIsCustomTileset = " << is << " for signature " << hex(v.data() + pre.size(), 4));
 		st.cls(want ? "peek:pbmp" : "peek:other");
 	} else st.cls("peek:short_stream");
+	if (sig.size() + post.size() >= 4) {   // the same through a file-backed stream
+		std::string fp = scratch_path("c09_sig.bin"); write_file(fp, v);
+		Stream::FileReader fr(fp); fr.Seek(pre.size());
+		bool isf = Tileset::PeekIsCustomTileset(fr);
+		V_CHECK(fr.Position() == pre.size(), "PeekIsCustomTileset moved a file-backed stream from " << pre.size() << " to " << fr.Position());
+		bool want = v[pre.size()] == 'P' && v[pre.size() + 1] == 'B' && v[pre.size() + 2] == 'M' && v[pre.size() + 3] == 'P';
+		V_CHECK(isf == want, "PeekIsCustomTileset on a file-backed stream = " << isf << " for signature " << hex(v.data() + pre.size(), 4));
+	}
 	st.nt(fnv1a(v.data(), v.size(), pre.size()) ^ 0x51);
 }
 
@@ -189,6 +200,7 @@ void run_case(Tape& t, Stats& st) {
 void run_sweep(Stats& st) {
 	std::vector<uint8_t> tp(64); for (size_t i = 0; i < tp.size(); ++i) tp[i] = uint8_t(i * 41 + 3);
 	std::vector<uint32_t> hs; for (uint32_t k = 0; k <= (g_thorough ? 130u : 12u); ++k) hs.push_back(k);
+	if (g_thorough) for (uint32_t k : {255u, 256u, 2047u}) hs.push_back(k);   // 32h crosses 2^16 and 2^18 (realistic tileset sizes)
 	if (!g_thorough) for (uint32_t k : {31u, 32u, 33u, 40u, 63u, 64u, 65u, 75u, 96u, 100u}) hs.push_back(k);   // beyond 1024 rows, around multiples of 1024 rows
 	for (uint32_t k : hs) { if (!sw("heights", k)) continue; Tape t(tp); Pic p = gen_pic(t); p.h = 32 * k; p.rows.resize(size_t(p.h) * 32); for (size_t i = 0; i < p.rows.size(); ++i) p.rows[i] = uint8_t(i * 7 + k); picture_case(p, st); }
 	// all one-bit neighbours of "PBMP" and a few signatures, at positions 0 and 5
